@@ -1,66 +1,72 @@
 /* C02 `execute_slot_wait`: waiting for a free slot in task_arena::execute (src/tbb/arena.cpp task_arena_impl::execute).
- * Arena A: 2 slots (1 reserved), all occupied when the threads start. Threads (MODE bit 1: L present; GATE: W is the entrant's own dispatch loop):
- *   E (tid 0): REAL task_arena_impl::execute(ta, d): occupy_free_slot fails -> delegated_task, enqueue_task [cut: recorded] ->
- *              do { my_exit_monitors.prepare_wait(waiter); if (!wo.continue_execution()) {cancel_wait; break;} index2 = occupy_free_slot;
- *              if (index2 != out_of_arena) {cancel_wait; nested_arena_context; r1::wait [stub: runs the recorded task]; break;} commit_wait } while (...)
- *              (if the leaver is faster, E gets a slot at once and runs d() directly: also legal)
- *   L (tid 1): an execute() caller that entered earlier through the real occupy_free_slot + nested_arena_context constructor, now leaving through
- *              the REAL ~nested_arena_context(): ... my_arena_slot->release(); my_exit_monitors.notify_one()
- *   W        : whoever executes the delegated task (a worker in the other slot; with GATE=1 the entrant's own dispatch loop inside r1::wait, see the stub): REAL delegated_task::execute -> d(); finalize():
+ * The whole real execute() against the whole real ~nested_arena_context() in one query does not fit (solver out of memory, see NOTES.md), so the
+ * hand-shake is checked one real side at a time against a minimal counterpart. Arena A: 2 slots (1 reserved), all occupied at the start.
+ *  SIDE 1  E = REAL task_arena_impl::execute(ta, d): occupy_free_slot fails -> delegated_task -> enqueue_task [cut: recorded] ->
+ *              do { my_exit_monitors.prepare_wait(waiter); if (!wo.continue_execution()) {cancel_wait; break;} index2 = occupy_free_slot();
+ *                   if (index2 != out_of_arena) {cancel_wait; nested_arena_context [ctor/dtor cut]; r1::wait [stub: runs the recorded task]; break;}
+ *                   commit_wait(waiter); } while (wo.continue_execution());   (if L is faster E gets the slot at once and runs d() directly)
+ *          L' = the leave sequence of ~nested_arena_context as two real calls: my_slots[LSLOT].release(); my_exit_monitors.notify_one()
+ *  SIDE 2  E as above, both slots stay occupied; W = a worker executing the delegated task: REAL delegated_task::execute -> d(); finalize():
  *              m_wait_ctx.release(); m_monitor.notify(ctx == &delegate)
- * LSLOT = slot the leaver occupies (0 reserved slot / 1 worker slot: then the real request_workers(0,+-1) calls are made too).
- * Oracles: blocked-state oracle (E asleep in its semaphore although a slot is free / its work is done and nobody else will notify);
- * the functor ran exactly once when E returns; at the end: every slot that L/E used is free again, the permanently occupied slot still is,
- * exit monitor wait set empty and its mutex free, nobody in the kernel futex queue, thread_data of E and L re-attached to their home arena,
- * net worker-demand delta 0. */
+ *  SIDE 3  L = REAL ~nested_arena_context() of an execute() caller that entered through the real occupy_free_slot + constructor:
+ *              ... leave_task_dispatcher(); my_arena_slot->release(); my_exit_monitors.notify_one(); re-attach to the home arena
+ *          E' = minimal entrant with the same hand-shake: loop { prepare_wait; real occupy_free_slot(); got one ? cancel_wait : commit_wait }
+ * Granularity: prepare_wait / cancel_wait / notify_one_relaxed are one atomic step each here (kept out of line; their internals are what the
+ * monitor_* harnesses interleave); commit_wait, the semaphore, the slot test/release and everything else interleave at IR-memory-operation level.
+ * Oracles: blocked-state oracle (the entrant asleep in its semaphore although a slot is free / its work is done and nobody else will notify);
+ * the functor ran exactly once when the entrant returns; at the end the slot used by L / the entrant is free, the permanently occupied slot still
+ * is, exit-monitor wait set empty and mutex free, nobody in the kernel futex queue. */
 #include "w.h"
 #include "vp.h"
-#define HAS_L (MODE & 1)
-#define HAS_W (MODE & 2)
-#define FX_NT 3
+#define FX_NT 2
 #include "futex_stub.h"
 typedef struct S_class_tbb__detail__r1__arena ARENA;
 typedef struct S_class_tbb__detail__r1__thread_data TD;
 typedef struct S_class_tbb__detail__r1__task_dispatcher DISP;
 /* zero-initialised memory with the layout allocate_arena uses: [mail_outbox x slots][arena incl. slot 0][slot 1] */
-struct amem { struct S_class_tbb__detail__r1__mail_outbox mb[2]; ARENA a; struct S_class_tbb__detail__r1__arena_slot slot1; u8 pad[256]; };
-extern struct amem MA; struct amem MHOME_E, MHOME_L;          /* the arena under test; the (other) arenas E and L come from */
+struct amem { struct S_class_tbb__detail__r1__mail_outbox mb[2]; ARENA a; struct S_class_tbb__detail__r1__arena_slot slot1; };
+struct amem MA, MHOME_E, MHOME_L;          /* the arena under test; the (other) arenas the entrant and the leaver come from */
 u8 TC[512] __attribute__((aligned(64)));
 DISP SLOTDISP[2], DISP_E, DISP_L;
 TD TD_E, TD_L, TD_W;
 struct S_class_tbb__detail__d1__task_arena_base TA;
 struct S_class_tbb__detail__r1__nested_arena_context SCOPE_L;
-int functor_calls, done[3];
-struct S_class_tbb__detail__d1__task* enq_task; int n_enq, task_taken, task_finished;
-struct S_class_tbb__detail__d1__wait_context* enq_wo;
+int functor_calls, done[2];
+struct S_class_tbb__detail__d1__task* enq_task; int n_enq, task_taken;
 long demand;
-
-void vp_functor(u32 tid) { VP_ASSERT(tid == 0, "functor of an unexpected delegate"); functor_calls++; }
-void vp_done(u32 tid) { done[tid] = 1; if (tid == 0) VP_ASSERT(functor_calls == 1, "execute() returned but its functor did not run exactly once"); }
-/* ptrhooks: the only integer->pointer conversion on these paths is the load of task_arena_base::my_arena (an atomic<arena*> read as a word);
- * tell the solver which object the word denotes (an integer of unknown provenance would make every later access a case split over all objects) */
-struct amem MA;
+/* ptrhooks: the only integer->pointer conversion on these paths is the load of task_arena_base::my_arena (an atomic<arena*> read as a word); tell
+ * the solver which object it denotes. Total and constant (it is also evaluated on not-yet-reached code during prefix replay); main() checks it. */
 u64 vp_p2i(u8* p) { return (u64)p; }
-u8* vp_i2p(u64 x) { return (u8*)&MA.a; }   /* total and constant (it is also evaluated on not-yet-reached code during prefix replay); main() checks that the word in TA is &MA.a */
+u8* vp_i2p(u64 x) { return (u8*)&MA.a; }
+
+void vp_functor(u32 tid) { functor_calls++; }
+void vp_done(u32 tid) { done[tid] = 1; if (tid == 0) VP_ASSERT(functor_calls == 1, "the entrant returned but its functor did not run exactly once"); }
 /* ---- external boundary */
-static TD* cur_td(void) { return vp_cur == 0 ? &TD_E : vp_cur == 1 && HAS_L ? &TD_L : &TD_W; }
-u8* vpx_pthread_getspecific(u32 key) { return (u8*)cur_td(); }            /* governor::get_thread_data(): the calling thread's thread_data */
+static TD* cur_td(void) { return vp_cur == 0 ? &TD_E : SIDE == 3 ? &TD_L : &TD_W; }
+u8* vpx_pthread_getspecific(u32 key) { return (u8*)cur_td(); }            /* governor::get_thread_data(): the calling thread's thread_data (declared pure) */
 void _ZN3tbb6detail2r18governor20init_external_threadEv(void) { VP_ASSERT(0, "thread_data exists"); }
 /* cut: arena::enqueue_task(dt, ctx, td) = push to the FIFO stream + advertise_new_work<work_enqueued> (arena_flag / C01 cover those): record it */
 void _ZN3tbb6detail2r15arena12enqueue_taskERNS0_2d14taskERNS3_18task_group_contextERNS1_11thread_dataE(ARENA* a, struct S_class_tbb__detail__d1__task* t,
     struct S_class_tbb__detail__d1__task_group_context* ctx, TD* td) { VP_ASSERT(a == &MA.a && n_enq == 0, "one delegated task"); enq_task = t; n_enq++; }
-/* r1::wait(wo, ctx): the entrant now owns a slot and runs the dispatch loop until wo is released. The dispatch loop is modelled by model thread W
- * (real delegated_task::execute on the entrant's current dispatcher): with GATE the recorded task becomes available to W only once the entrant
- * is in here (nobody else can run it: both other occupants are busy); without GATE W is an independent worker. The stub parks the entrant until
- * wo is released (wait_context::release -> notify_waiters is what wakes it in reality). */
-int e_in_wait;
+#if SIDE != 3
+/* cut: nested_arena_context constructor / destructor (thread-private re-attachment bookkeeping; the destructor's release + notify_one is SIDE 3).
+ * Stubs: remember the slot; leave through the same two real calls. */
+int e_slot = -1, e_nested;
+void _ZN3tbb6detail2r120nested_arena_contextC2ERNS1_11thread_dataERNS1_5arenaEm(struct S_class_tbb__detail__r1__nested_arena_context* s, TD* td, ARENA* a, u64 idx) {
+  VP_ASSERT(a == &MA.a && idx < 2 && e_nested == 0 && vp_slot_occupied(&MA.a, (u32)idx), "the entrant enters the arena through a slot it has occupied"); e_slot = (int)idx; e_nested = 1; }
+void _ZN3tbb6detail2r120nested_arena_contextD2Ev(struct S_class_tbb__detail__r1__nested_arena_context* s) { VP_ASSERT(e_nested == 1, "leave without enter"); e_nested = 0; vp_leave_slot(&MA.a, (u32)e_slot); }
+#endif
+/* r1::wait(wo, ctx): the entrant owns a slot and runs the dispatch loop until wo is released. Contract stub: take the recorded delegated task if it
+ * is still there and execute it (REAL delegated_task::execute, one atomic step: no monitor lock is ever held across a context switch in this
+ * unit), then return once wo is released. */
 void _ZN3tbb6detail2r14waitERNS0_2d112wait_contextERNS2_18task_group_contextE(struct S_class_tbb__detail__d1__wait_context* wo, struct S_class_tbb__detail__d1__task_group_context* ctx) {
-  if (!e_in_wait) { e_in_wait = 1; vp_changed = 1; }
+  if (!task_taken && n_enq) { task_taken = 1; vp_changed = 1; vp_dt_execute(enq_task, cur_td()); }
   if (!vp_wait_ctx_done(wo)) VP_BLOCK();
 }
+/* worker side (SIDE 2): the task becomes available once enqueued; null if the entrant needed no delegation */
 struct S_class_tbb__detail__d1__task* vp_take_task(u32 tid) {
-  if (done[0]) return 0;                                   /* the entrant needed no delegation (it got a slot at once) */
-  if (!n_enq || (GATE && !e_in_wait)) { VP_BLOCK(); return 0; }
+  if (done[0]) return 0;
+  if (!n_enq) { VP_BLOCK(); return 0; }
   VP_ASSERT(!task_taken, "delegated task taken twice"); task_taken = 1; vp_changed = 1; return enq_task;
 }
 void _ZN3tbb6detail2r114notify_waitersEm(u64 w) {}                          /* wakes threads parked in r1::wait on this wait_context: the stub above polls */
@@ -79,69 +85,63 @@ void _ZdlPv(u8* p) { VP_ASSERT(0, "operator delete"); }
 void vpx___clang_call_terminate(u8* p) { VP_ASSERT(0, "terminate"); }
 u8 _ZN3tbb6detail2d021timed_spin_wait_untilIZNS0_2r124concurrent_monitor_mutex4lockEvEUlvE_EEbT_(struct S_class_tbb__detail__r1__concurrent_monitor_mutex* mx) { return (u8)vp_cmm_is_free(mx); }
 
-#if HAS_L
-#define T_L vp_thr_leaver_b
-#define T_W vp_thr_worker_c
+#if SIDE == 1
+#define T_A vp_thr_entrant_a
+#define T_B vp_thr_leaver2_b
+#elif SIDE == 2
+#define T_A vp_thr_entrant_a
+#define T_B vp_thr_worker_b
 #else
-#define T_W vp_thr_worker_b
+#define T_A vp_thr_waiter_a
+#define T_B vp_thr_leaver_b
 #endif
-#undef HAS_W
-#define HAS_W 1
 #define START(t) START_(t)
 #define START_(t) t##_start
+#ifndef EXTRA_E
+#define EXTRA_E 0
+#endif
 int main(void) {
   vp_arena_prestate(&MA.a, (struct S_class_tbb__detail__r1__threading_control*)TC, 2, 1, SLOTDISP);
   vp_ta_set(&TA, &MA.a);
   VP_ASSERT(vp_ta_get(&TA) == &MA.a, "pre-state: the task_arena refers to the arena under test (see vp_i2p)");
   vp_td_prestate(&TD_E, &MHOME_E.a, &DISP_E);
-  unsigned perm = HAS_L ? 1 - LSLOT : 0;            /* slot of the occupant that never leaves (the worker W, if present) */
+  unsigned perm = SIDE == 2 ? 1 : 1 - LSLOT;        /* slot of the occupant that never leaves */
   { int ok = vp_slot_occupy(&MA.a, perm); VP_ASSERT(ok, "pre-state: permanent occupant"); }
-#if HAS_L
+#if SIDE == 1
+  { int ok = vp_slot_occupy(&MA.a, LSLOT); VP_ASSERT(ok, "pre-state: the leaving occupant holds the other slot"); }
+  vp_thr_entrant_a_start(&TA, 0); vp_thr_leaver2_b_start(&MA.a, LSLOT, 1);
+#elif SIDE == 2
+  { int ok = vp_slot_occupy(&MA.a, 0); VP_ASSERT(ok, "pre-state: second permanent occupant"); }
+  vp_worker_attach(&TD_W, &MA.a, 1);
+  vp_thr_entrant_a_start(&TA, 0); vp_thr_worker_b_start(&TD_W, 1);
+#else
   vp_td_prestate(&TD_L, &MHOME_L.a, &DISP_L);
   { u64 idx = vp_enter_nested(&SCOPE_L, &TD_L, &MA.a); VP_ASSERT(idx == LSLOT, "pre-state: the leaver entered the remaining slot through the real path"); }
-#else
-  { int ok = vp_slot_occupy(&MA.a, 1); VP_ASSERT(ok, "pre-state: second permanent occupant"); }
-#endif
-#if !GATE
-  vp_worker_attach(&TD_W, &MA.a, HAS_L ? perm : 1);
+  vp_thr_waiter_a_start(&MA.a, 0); vp_thr_leaver_b_start(&SCOPE_L, 1);
 #endif
   long demand0 = demand;
-  vp_thr_entrant_a_start(&TA, 0);
-#if HAS_L
-  START(T_L)(&SCOPE_L, 1);
-#endif
-#if HAS_W
-  START(T_W)(GATE ? &TD_E : &TD_W, HAS_L ? 2 : 1);
-#endif
   for (int r = 0; r < ROUNDS; r++) {
-    VP_RUNT(vp_thr_entrant_a, 0)
-#if HAS_L
-    VP_RUNT(T_L, 1)
-#endif
-#if HAS_W
-    VP_RUNT(T_W, HAS_L ? 2 : 1)
-#endif
-    for (int x = 0; x < EXTRA_E; x++) { VP_RUNT(vp_thr_entrant_a, 0) }     /* E's loops (wait loop, destructor pump) take one iteration per slice */
+    VP_RUNT(T_A, 0) VP_RUNT(T_B, 1)
+    for (int x = 0; x < EXTRA_E; x++) { VP_RUNT(T_A, 0) }     /* the entrant's wait loop takes one iteration per slice */
   }
-#if HAS_L
-  VP_QUIESCE3(vp_thr_entrant_a, T_L, T_W)
-#else
-  VP_QUIESCE2(vp_thr_entrant_a, T_W)
-#endif
+  VP_QUIESCE2(T_A, T_B)
   VP_ASSERT(!vp_deadlock, "lost wake-up: the entrant sleeps on the exit monitor although a slot is free / its work is done and nobody else will notify");
   __CPROVER_assume(!vp_unfinished);
   VP_ASSERT(functor_calls == 1, "functor did not run exactly once");
   VP_ASSERT(vp_slot_occupied(&MA.a, perm), "the permanent occupant lost its slot");
-#if HAS_L
-  VP_ASSERT(!vp_slot_occupied(&MA.a, LSLOT), "the slot used by the leaver / the entrant is still occupied at the end");
-  VP_ASSERT(vp_td_arena(&TD_L) == &MHOME_L.a, "leaver not re-attached to its home arena");
+#if SIDE == 2
+  VP_ASSERT(vp_slot_occupied(&MA.a, 0), "second permanent occupant lost its slot");
 #else
-  VP_ASSERT(vp_slot_occupied(&MA.a, 1), "second permanent occupant lost its slot");
+  VP_ASSERT(!vp_slot_occupied(&MA.a, LSLOT), "the slot used by the leaver / the entrant is still occupied at the end");
 #endif
-  VP_ASSERT(vp_td_arena(&TD_E) == &MHOME_E.a, "entrant not re-attached to its home arena");
+#if SIDE == 3
+  VP_ASSERT(vp_td_arena(&TD_L) == &MHOME_L.a, "leaver not re-attached to its home arena");
+  VP_ASSERT(demand - demand0 == (LSLOT == 1 ? 1 : 0), "net worker demand: +1 iff the leaver held a worker slot");
+#else
+  VP_ASSERT(e_nested == 0, "entrant still inside the nested arena context");
+#endif
   VP_ASSERT(vp_exit_waitset_size(&MA.a) == 0 && vp_exit_mutex_flag(&MA.a) == 0, "exit monitor wait set not empty / mutex held at the end");
   VP_ASSERT(!fx_anyone_sleeping(), "a thread finished while the kernel still has it queued on a futex");
-  VP_ASSERT(demand - demand0 == (HAS_L && LSLOT == 1 ? 1 : 0), "net worker demand: +1 for the freed worker slot iff the leaver held it, otherwise unchanged");
   VP_REACHED();
   return 0;
 }
